@@ -60,8 +60,12 @@ func (w *World) Converge(ns, name string, pendingChanges int) ConvergeResult {
 	if e == nil {
 		return res
 	}
+	releasedHold := ""
 	for _, k := range []string{v1.ExtendedDaemonSetRollingUpdatePausedAnnotationKey, v1.ExtendedDaemonSetRolloutFrozenAnnotationKey} {
-		if _, ok := e.Annotations[k]; ok {
+		if val, ok := e.Annotations[k]; ok {
+			if val == "true" {
+				releasedHold += k[strings.LastIndex(k, "/")+1:] + " "
+			}
 			w.Annotate(ns, name, k, "")
 		}
 	}
@@ -197,7 +201,15 @@ func (w *World) Converge(ns, name string, pendingChanges int) ConvergeResult {
 		}
 		attrs["why"] = classify(why)
 		w.Mon.viol("C02", "C02.fixpoint-within-bound", attrs, nil, map[string]any{"bound": res.Bound, "rounds": res.Rounds, "live": live, "why": why, "pods": w.podSummary(ns, name)})
+		if releasedHold != "" {
+			// C08: "a rolling update resumes once its annotation is removed or set to false"
+			w.Mon.viol("C08", "C08.resumes-after-release", map[string]string{"released": strings.TrimSpace(releasedHold), "how": "annotation-removed", "why": classify(why)}, nil,
+				map[string]any{"bound": res.Bound, "rounds": res.Rounds, "live": live, "why": why, "pods": w.podSummary(ns, name), "state": string(kit.GetEDS(w.S, ns, name).Status.State)})
+		}
 		return res
+	}
+	if releasedHold != "" {
+		ctx.Count("C08.releases-by-annotation-removal-judged")
 	}
 	w.Mon.AtFixpoint(ns, name, live, res)
 	return res
